@@ -11,9 +11,18 @@ import (
 )
 
 // Sample is one series value at one evaluation time.
+//
+// E bounds how far a correct floating-point evaluation of the same expression may lie from V
+// (different but equally valid orders of summation, a streaming instead of a two-pass mean or
+// variance): a first-order running error bound with a generous constant, see errs.go. Unc
+// tells that the value cannot be decided at all within those bounds: a comparison of two
+// values closer than their errors, a division by a value that may be zero, a modulo next to a
+// multiple of the divisor.
 type Sample struct {
 	Labels map[string]string
 	V      float64
+	E      float64
+	Unc    bool
 }
 
 // Value is the result of evaluating a metric expression at one time: a scalar or a vector.
@@ -245,22 +254,22 @@ func (e *Evaluator) rangeAt(m *gen.Metric, t int64) (Value, error) {
 		for i, p := range g.pts {
 			vals[i] = p.v
 		}
-		var v float64
+		var v, e float64
 		switch m.Op {
 		case "count_over_time":
 			v = float64(len(vals))
 		case "rate":
 			if m.Unwrap != nil {
-				v = sum(vals) / rangeSecs
+				v, e = quotErr(sum(vals), sumErr(vals, nil), rangeSecs)
 			} else {
-				v = float64(len(vals)) / rangeSecs
+				v, e = quotErr(float64(len(vals)), 0, rangeSecs)
 			}
 		case "bytes_over_time", "sum_over_time":
-			v = sum(vals)
+			v, e = sum(vals), sumErr(vals, nil)
 		case "bytes_rate":
-			v = sum(vals) / rangeSecs
+			v, e = quotErr(sum(vals), sumErr(vals, nil), rangeSecs)
 		case "avg_over_time":
-			v = mean(vals)
+			v, e = mean(vals), meanErr(vals, nil)
 		case "min_over_time":
 			v = vals[0]
 			for _, x := range vals {
@@ -272,11 +281,11 @@ func (e *Evaluator) rangeAt(m *gen.Metric, t int64) (Value, error) {
 				v = math.Max(v, x)
 			}
 		case "stdvar_over_time":
-			v = variance(vals)
+			v, e = variance(vals), varErr(vals, nil)
 		case "stddev_over_time":
-			v = math.Sqrt(variance(vals))
+			v, e = sqrtErr(variance(vals), varErr(vals, nil))
 		case "quantile_over_time":
-			v = quantile(m.Param, vals)
+			v, e = quantile(m.Param, vals), roundErr*maxAbs(vals)
 		case "first_over_time", "last_over_time":
 			// The generator keeps timestamps of one series distinct for these functions.
 			best := g.pts[0]
@@ -298,7 +307,7 @@ func (e *Evaluator) rangeAt(m *gen.Metric, t int64) (Value, error) {
 		default:
 			return Value{}, &Unsupported{"range function " + m.Op}
 		}
-		out = append(out, Sample{Labels: g.labels, V: v})
+		out = append(out, Sample{Labels: g.labels, V: v, E: e})
 	}
 	return Value{Vec: out}, nil
 }
@@ -407,7 +416,8 @@ func (e *Evaluator) binop(m *gen.Metric, t int64) (Value, error) {
 			if err != nil {
 				return Value{}, err
 			}
-			out = append(out, Sample{Labels: s.Labels, V: v})
+			e, unc := binErr(m.Op, l.S, 0, s.V, s.E, v)
+			out = append(out, Sample{Labels: s.Labels, V: v, E: e, Unc: unc || s.Unc})
 		}
 		return Value{Vec: out}, nil
 	case r.Scalar:
@@ -417,7 +427,8 @@ func (e *Evaluator) binop(m *gen.Metric, t int64) (Value, error) {
 			if err != nil {
 				return Value{}, err
 			}
-			out = append(out, Sample{Labels: s.Labels, V: v})
+			e, unc := binErr(m.Op, s.V, s.E, r.S, 0, v)
+			out = append(out, Sample{Labels: s.Labels, V: v, E: e, Unc: unc || s.Unc})
 		}
 		return Value{Vec: out}, nil
 	}
@@ -435,7 +446,8 @@ func (e *Evaluator) binop(m *gen.Metric, t int64) (Value, error) {
 		if err != nil {
 			return Value{}, err
 		}
-		out = append(out, Sample{Labels: s.Labels, V: v})
+		e, unc := binErr(m.Op, s.V, s.E, rs.V, rs.E, v)
+		out = append(out, Sample{Labels: s.Labels, V: v, E: e, Unc: unc || s.Unc || rs.Unc})
 	}
 	return Value{Vec: out}, nil
 }
@@ -500,35 +512,40 @@ func (e *Evaluator) vecagg(m *gen.Metric, t int64) (Value, error) {
 	for _, k := range order {
 		g := groups[k]
 		vals := make([]float64, len(g.members))
+		errs := make([]float64, len(g.members))
+		unc := false
 		for i, s := range g.members {
-			vals[i] = s.V
+			vals[i], errs[i] = s.V, s.E
+			unc = unc || s.Unc
 		}
-		var v float64
+		var v, e float64
 		switch m.Op {
 		case "sum":
-			v = sum(vals)
+			v, e = sum(vals), sumErr(vals, errs)
 		case "avg":
-			v = mean(vals)
+			v, e = mean(vals), meanErr(vals, errs)
 		case "count":
-			v = float64(len(vals))
+			v, unc = float64(len(vals)), false
 		case "min":
 			v = vals[0]
 			for _, x := range vals {
 				v = math.Min(v, x)
 			}
+			e = maxOf(errs)
 		case "max":
 			v = vals[0]
 			for _, x := range vals {
 				v = math.Max(v, x)
 			}
+			e = maxOf(errs)
 		case "stdvar":
-			v = variance(vals)
+			v, e = variance(vals), varErr(vals, errs)
 		case "stddev":
-			v = math.Sqrt(variance(vals))
+			v, e = sqrtErr(variance(vals), varErr(vals, errs))
 		default:
 			return Value{}, &Unsupported{"vector aggregation " + m.Op}
 		}
-		out = append(out, Sample{Labels: g.labels, V: v})
+		out = append(out, Sample{Labels: g.labels, V: v, E: e, Unc: unc})
 	}
 	return Value{Vec: out}, nil
 }
@@ -553,6 +570,9 @@ func (e *Evaluator) At(m *gen.Metric, t int64) (Value, error) {
 // Result is a model result over a whole grid: labelKey -> T(ms) -> value.
 type Result struct {
 	Points map[string]map[int64]float64
+	// Err and Unc are the error bound and the undecidable flag of the points (see Sample).
+	Err    map[string]map[int64]float64
+	Unc    map[string]map[int64]bool
 	Labels map[string]map[string]string
 	// LastOrdered is the ordered vector of the last evaluated step (for sort checks).
 	LastOrdered []Sample
@@ -560,7 +580,7 @@ type Result struct {
 
 // Eval evaluates m over the grid of p.
 func (e *Evaluator) Eval(m *gen.Metric, p Params) (Result, error) {
-	res := Result{Points: map[string]map[int64]float64{}, Labels: map[string]map[string]string{}}
+	res := Result{Points: map[string]map[int64]float64{}, Err: map[string]map[int64]float64{}, Unc: map[string]map[int64]bool{}, Labels: map[string]map[string]string{}}
 	for _, t := range p.Steps() {
 		v, err := e.At(m, t)
 		if err != nil {
@@ -580,9 +600,15 @@ func (e *Evaluator) Eval(m *gen.Metric, p Params) (Result, error) {
 			seen[k] = true
 			if res.Points[k] == nil {
 				res.Points[k] = map[int64]float64{}
+				res.Err[k] = map[int64]float64{}
+				res.Unc[k] = map[int64]bool{}
 				res.Labels[k] = nl
 			}
 			res.Points[k][tms] = s.V
+			res.Err[k][tms] = s.E
+			if s.Unc {
+				res.Unc[k][tms] = true
+			}
 		}
 		if v.Ordered {
 			res.LastOrdered = v.Vec
@@ -616,6 +642,12 @@ func (e *Evaluator) WindowStats(m *gen.Metric, steps []int64) (maxPts int, edgeH
 		}
 	}
 	return maxPts, edgeHit, total, nil
+}
+
+// Tolerance returns the comparison function of a result for canon.DiffPointMapsTol: the bound
+// of a point and whether it is undecidable.
+func (r Result) Tolerance() func(k string, t int64) (float64, bool) {
+	return func(k string, t int64) (float64, bool) { return r.Err[k][t], r.Unc[k][t] }
 }
 
 // Ranges returns the range nodes of an expression.
